@@ -406,6 +406,11 @@ func parseScript(t stmpl) parsedScript {
 	if se == nil || n != 1 {
 		return parsedScript{why: "the template's body is not exactly one script element"}
 	}
+	return partsOf(*se, body)
+}
+
+// partsOf: the parts of one parsed script element; ok when they spell the expected body again
+func partsOf(se parser.ScriptElement, body string) parsedScript {
 	p := parsedScript{}
 	var sb strings.Builder
 	for _, c := range se.Contents {
@@ -702,6 +707,9 @@ func famScripts(c *core.Ctx, t *tally, pl scriptPlan, sc *scratch, compiledOK ma
 			c.Hist("script: rendered and judged, inside the fragment of C03_script_structure_partial")
 		}
 		if bits == "11" {
+			if len(cs.t.idx) <= 4 && len(body) <= 160 && utf8.ValidString(body) {
+				histPool = append(histPool, cs)
+			}
 			if !c.Quick() && len(cs.t.feats) == 1 && strings.HasPrefix(cs.t.feats[0], "sweep:") && len(nodeScripts) < 60000 &&
 				utf8.ValidString(cs.vals[0]) && utf8.ValidString(cs.vals[1]) {
 				// exactly two string tokens, every token well-formed: then node must agree on both values
